@@ -621,6 +621,12 @@ def translate() -> tuple[str, dict]:
     out += ["/-- exception kinds caught (and not re-raised) around the version-row read in Database._prepare_version -/",
             f"def versionHandlers : List ExcKind := {lean_list(['.' + h for h in handlers])}",
             ""]
+    detects = {}
+    for path_, cls_ in SOURCES:
+        csrc = ast.unparse(_class(ast.parse((REPO / path_).read_text()), cls_, path_))
+        fn_ = csrc[csrc.find("def check_database"):]
+        detects[cls_] = "PRAGMA table_info" in fn_ and "idatabase_version = 1" in fn_.replace("  ", " ")
+    meta["detects_old"] = detects
     for clsname, ls, tids, latest, ups in lean_scripts:
         ups_l = lean_list([f"({v}, {lean_list([lean_stmt(x) for x in st])})" for v, st in ups])
         out += [f"/-- statements of {clsname}.get_schema(LATEST_DB_VERSION), in order -/",
@@ -628,7 +634,8 @@ def translate() -> tuple[str, dict]:
                 f"def tables{clsname} : List Nat := {lean_list([str(t) for t in tids])}",
                 f"/-- how {clsname} opens a file: LATEST_DB_VERSION, get_upgrade_script(v) for every older v, the schema -/",
                 f"def open{clsname} : OpenCfg :=",
-                f"  {{ handlers := versionHandlers, latest := {latest}, upgrades := {ups_l}, script := schema{clsname} }}",
+                f"  {{ handlers := versionHandlers, latest := {latest}, upgrades := {ups_l}, script := schema{clsname},",
+                f"    detectsOld := {'true' if detects.get(clsname) else 'false'} }}",
                 ""]
     out += [
             "/-- how PseudonymManager.__init__ puts the stored tokens back into the tree -/",
